@@ -132,6 +132,23 @@ def _run_shard(job):
         anns = {d: Float[Duck2, d] for d in dims}
         mkval = Duck
         force_false = True
+    elif variant.startswith("nested:"):
+        # D[D[Duck, inner], outer] with dims = outer + inner split after `k` tokens (k < 0: from the
+        # end): documented to mean exactly D[Duck, 'outer inner']
+        import jaxtyping
+
+        _, oc, k = variant.split(":")
+        k = int(k)
+        anns = {}
+        for d in dims:
+            toks = d.split()
+            if len(toks) < 2:
+                anns[d] = Float[Duck, d]
+            else:
+                kk = k if k > 0 else len(toks) + k
+                kk = min(max(kk, 1), len(toks) - 1)
+                anns[d] = getattr(jaxtyping, oc)[Float[Duck, " ".join(toks[kk:])], " ".join(toks[:kk])]
+        mkval = Duck
     elif variant.startswith("dtype:"):
         import jaxtyping
 
@@ -431,8 +448,9 @@ def run(ctx):
     car_states = [s for s in st_list if len(s[0]) <= 1][::2] + [s for s in st_list if len(s[0]) == 2][:: (9 if ctx.quick else 3)]
     car_shapes = [sh for sh in shapes_small() if 0 not in sh or len(sh) <= 2]
     variants = ["np", "any", "wrongclass", "dtype:Float:float16:1", "dtype:Float:int32:0", "dtype:Int:int32:1", "dtype:Int:float32:0", "dtype:Num:bool:0", "dtype:Shaped:bool:1"]
+    variants += ["nested:Float:1", "nested:Shaped:-1"]
     if ctx.thorough:
-        variants += ["jax", "dtype:Float:bfloat16:1", "dtype:Complex:float32:0", "dtype:Inexact:complex64:1"]
+        variants += ["nested:Float:-1", "nested:Shaped:1", "jax", "dtype:Float:bfloat16:1", "dtype:Complex:float32:0", "dtype:Inexact:complex64:1"]
     for v in variants:
         nsp = 2 if ctx.quick else 4
         for idx in common.shards(len(car_states), nsp, 0):
